@@ -281,6 +281,28 @@ func runSched(bin string, scenarios []string, bound int, procs int, maxExec int6
 	return tot, per, firstErr
 }
 
+// heavyBodies: bodies that perform more than 2 pool Get operations when run alone.
+func heavyBodies(bin string) map[int]bool {
+	out, err := exec.Command(bin, "bodies").Output()
+	h := map[int]bool{}
+	if err != nil {
+		return h
+	}
+	var b []struct {
+		Index int `json:"index"`
+		Gets  int `json:"pool_gets"`
+	}
+	if json.Unmarshal(out, &b) != nil {
+		return h
+	}
+	for _, x := range b {
+		if x.Gets > 2 {
+			h[x.Index] = true
+		}
+	}
+	return h
+}
+
 // numBodies asks the explorer how many call bodies it has.
 func numBodies(bin string) int {
 	out, err := exec.Command(bin, "bodies").Output()
@@ -390,12 +412,19 @@ func CheckC14(r *Report) {
 		for i := 0; i < nb; i++ {
 			allBodies = append(allBodies, i)
 		}
-		// (1) 2 threads x 1 call: all unordered pairs of all bodies, complete
-		var s []string
+		// (1) 2 threads x 1 call: all unordered pairs of bodies; complete when both bodies make at most two pool
+		// round trips, otherwise preemption bound 3 (bodies that parse several v2 vectors have too many points)
+		heavy := heavyBodies(bin)
+		var s, sHeavy []string
 		for _, p := range multisets(allBodies, 2) {
-			s = append(s, scnOf([]int{p[0]}, []int{p[1]}))
+			if heavy[p[0]] || heavy[p[1]] {
+				sHeavy = append(sHeavy, scnOf([]int{p[0]}, []int{p[1]}))
+			} else {
+				s = append(s, scnOf([]int{p[0]}, []int{p[1]}))
+			}
 		}
-		add("2 threads x 1 call (all pairs, complete)", s, -1, 0)
+		add("2 threads x 1 call (all pairs of light bodies, complete)", s, -1, 0)
+		add("2 threads x 1 call (pairs with a multi-parse body, preemption bound 3)", sHeavy, 3, 0)
 		// (2) call histories: every sequence of calls up to depth d as a 1-thread scenario (pool answers explored)
 		depth := 3
 		hist := allBodies
@@ -480,6 +509,10 @@ func CheckC14(r *Report) {
 			r.Note("VACUITY WARNING: explorations never produced two pool outcomes (pool sizes %v, executions with a non-default pool answer %d): nothing collided", total.PoolSizes, total.EnvDeviation)
 			r.NotExhaustive("vacuous exploration (no pool interaction observed)")
 		}
+	}
+	// (7) cold vs warm differential in a fresh process (empty history vs long history; ascending vs descending tables)
+	if cw := runC14Cold(r); cw != nil {
+		phase["cold vs warm differential (fresh process)"] = cw
 	}
 	// (5) race side pass
 	raceBin := filepath.Join(tmp, "racepass")
